@@ -150,6 +150,7 @@ func (pmt *Payment) ValidateWithContext(ctx context.Context) error {
 	return tax.ValidateStructWithContext(ctx, pmt,
 		validation.Field(&pmt.Regime),
 		validation.Field(&pmt.Addons),
+		validation.Field(&pmt.Tags.List, tax.TagsIn(pmt.supportedTags()...)),
 		validation.Field(&pmt.UUID),
 		validation.Field(&pmt.Type,
 			validation.Required,
@@ -185,6 +186,17 @@ func (pmt *Payment) ValidateWithContext(ctx context.Context) error {
 		validation.Field(&pmt.Complements),
 		validation.Field(&pmt.Meta),
 	)
+}
+
+func (pmt *Payment) supportedTags() []cbc.Key {
+	var ts *tax.TagSet
+	if r := pmt.RegimeDef(); r != nil {
+		ts = ts.Merge(tax.TagSetForSchema(r.Tags, ShortSchemaPayment))
+	}
+	for _, a := range pmt.AddonDefs() {
+		ts = ts.Merge(tax.TagSetForSchema(a.Tags, ShortSchemaPayment))
+	}
+	return ts.Keys()
 }
 
 // validationContext builds a context with all the validators that the payment might
